@@ -302,6 +302,89 @@ def case_file(case):
     return finish_case(I, res) if I else res
 
 
+# ---- merge group: per-file results folded with ParsedData += ParsedData keep every item and every error -------------------
+MERGE_FILES = {
+    "const": "#[typeshare]\npub const KA%d: u32 = 1;\n#[typeshare]\npub const KB%d: u32 = 2;\n",
+    "error": "#[typeshare]\npub struct Bad%d { pub a: u64 }\n",
+    "struct": "#[typeshare]\npub struct St%d { pub a: u32 }\n",
+    "enum": "#[typeshare]\npub enum En%d { A, B }\n",
+    "alias": "#[typeshare]\npub type Al%d = Vec<u32>;\n",
+    "const+error": "#[typeshare]\npub const KC%d: u32 = 3;\n#[typeshare]\npub struct Worse%d { pub t: (u8, u8) }\n",
+    "mixed": "#[typeshare]\npub struct Mx%d { pub a: u32 }\n#[typeshare]\npub const KM%d: u32 = 4;\n",
+}
+
+
+def case_merge(case):
+    kinds = case
+    from vlib.mirsym.engine import new_interp
+    from vlib.mirsym import synast, pharness
+    P = prog()
+    L = P.layout
+    I = new_interp(P)
+    res = {"paths": 0, "violations": [], "case": list(kinds), "src": ""}
+    srcs = [MERGE_FILES[k] % ((i,) * MERGE_FILES[k].count("%d")) for i, k in enumerate(kinds)]
+    pn = L.structs["ParsedData"]
+
+    def names(pd):
+        out = {}
+        for fld, sn in (("structs", "RustStruct"), ("aliases", "RustTypeAlias"), ("consts", "RustConst")):
+            out[fld] = sorted(pystr(x.fields[L.structs[sn].index("id")].fields[0]) for x in pd.fields[pn.index(fld)].items)
+        out["enums"] = len(pd.fields[pn.index("enums")].items)
+        out["errors"] = sorted(pystr(e.fields[L.structs["ErrorInfo"].index("file_name")]) for e in pd.fields[pn.index("errors")].items)
+        return out
+
+    def entry(I):
+        parts = []
+        for i, src in enumerate(srcs):
+            f = synast.parse_source(P, src)
+            r = pharness.run_visitor(I, f, file_path="src/f%d.rs" % i)
+            if r.variant == 1:
+                parts.append(r.fields[0])
+        want = {"structs": [], "aliases": [], "consts": [], "enums": 0, "errors": []}
+        for pd in parts:
+            n = names(pd)
+            for k in ("structs", "aliases", "consts", "errors"):
+                want[k] += n[k]
+            want["enums"] += n["enums"]
+        acc = I.call_static("<parser::ParsedData as std::default::Default>::default", [])
+        cell = [acc]
+        for pd in parts:
+            I.call_static("<parser::ParsedData as std::ops::AddAssign>::add_assign", [Ref(cell, 0), pd])
+        return names(cell[0]), {k: (sorted(v) if isinstance(v, list) else v) for k, v in want.items()}
+
+    for kind, out, pc in I.explore(entry, max_paths=20):
+        res["paths"] += 1
+        if kind == "panic":
+            res["violations"].append({"kind": "panic", "msg": out.msg}); continue
+        got, want = out
+        if got != want:
+            res["violations"].append({"kind": "merge-loses-items", "got": got, "want": want, "files": list(kinds)})
+    return finish_case(I, res)
+
+
+def native_merge(nat, kinds):
+    """the library pipeline on the same files in the same arrival order: every item defined / every error reported"""
+    files = [{"source": MERGE_FILES[k] % ((i,) * MERGE_FILES[k].count("%d")), "crate_name": "", "file_name": "", "file_path": "src/f%d.rs" % i} for i, k in enumerate(kinds)]
+    r = nat.ask({"op": "generate", "lang": "typescript", "multi_file": False, "files": files, "config": {}})
+    want_err = sum(1 for k in kinds if "error" in k)
+    if want_err:
+        got_err = len(r.get("parse_errors") or r.get("err") or [])
+        if got_err == want_err:
+            return False, "real pipeline reports %d error(s)" % got_err, files
+        if got_err:
+            return True, "files %s merged in this order: %d of the %d unsupported items are reported, the others are lost" % (list(kinds), got_err, want_err), files
+        return True, "files %s merged in this order: the unsupported item's error is lost, the run succeeds (%s)" % (list(kinds), str(r.get("out", r))[:120]), files
+    out = r.get("out", {}).get("", None)
+    if out is None:
+        return None, str(r)[:200], files
+    wanted = []
+    for i, k in enumerate(kinds):
+        wanted += _re.findall(r"pub (?:const|struct|enum|type) (\w+)", files[i]["source"])
+    missing = [w for w in wanted if w not in out and w.upper() not in out and _re.sub(r"(?<!^)(?=[A-Z])", "_", w).upper() not in out]
+    if missing:
+        return True, "files %s merged in this order: %s missing from the output" % (list(kinds), missing), files
+    return False, "real output has every item", files
+
 # ---- back-end half: every parsed item is defined exactly once by every back end -------------------------------
 import re as _re
 from vlib.extract import Skel, PUA_CLASS, struct_fields
@@ -506,9 +589,12 @@ def run(rep, tier, only=None):
                   "files": "4 items of mixed kinds, every annotated subset, an optional failing item, module depth 0..2"}
     rep.outside = ["the textual pre-filter `source.contains(\"#[typeshare\")` (text level; syn's lexer is not encoded)", "members of enums in the generated text (C02 reads them); helper types a back end derives are not counted as invented", "more than 3 members / 4 items"]
     rep.assumptions = ["syn::visit's default traversal is a model (children in field order)", "source text -> AST by the real syn"]
+    mk_ = list(MERGE_FILES)
+    mg_cases = [(a, b) for a in mk_ for b in mk_] + [(a, b, c) for a in ("const", "error", "const+error") for b in mk_ for c in ("struct", "const", "mixed")]
+    rep.bounds["merge"] = "2-3 files of kinds %s parsed from MIR and folded in order with `ParsedData += ParsedData`: every item and every error of every file survives" % sorted(MERGE_FILES)
     bk_cases = [(l, ks) for l in BK_LANGS for ks in (BK_ITEMS, ("struct", "const"), ("const",), ("alias", "unit_enum"), ("alg_enum", "struct"))]
     rep.bounds["backend"] = "every back end on IRs holding one item of each kind (struct with 3 fields, alias, unit enum, data enum with unit/tuple/struct variants, const) with symbolic names: each item defined exactly once, struct fields in order"
-    groups = [("annotation", "case_annotation", ann_cases), ("marker-word", "case_marker_word", word_cases), ("members", "case_members", mem_cases), ("file", "case_file", file_cases), ("backend", "case_backend", bk_cases)]
+    groups = [("annotation", "case_annotation", ann_cases), ("marker-word", "case_marker_word", word_cases), ("members", "case_members", mem_cases), ("file", "case_file", file_cases), ("merge", "case_merge", mg_cases), ("backend", "case_backend", bk_cases)]
     for gname, fn, cases in groups:
         if only and gname not in only:
             continue
@@ -522,6 +608,18 @@ def run(rep, tier, only=None):
             if not r["violations"]:
                 if gname in ("annotation", "marker-word") and len(rep.samples) < 8:
                     rep.sample({"harness": gname, "case": case, "paths": r["paths"], "verdict": "generated exactly when the symbolic word is the trigger word (unsat otherwise)"})
+                continue
+            if gname == "merge":
+                v = r["violations"][0]
+                ok, why, files = native_merge(nat, case)
+                rep.validated += 1
+                sig = {"group": "merge", "kind": v["kind"], "first": case[0]}
+                if ok:
+                    rep.violation(sig, why, {"kind": "merge", "kinds": list(case), "source": ""})
+                elif ok is None:
+                    rep.inconc("replay failed for merge %s: %s" % (case, why))
+                else:
+                    rep.inconc("engine mismatch in merge %s: interpreter %s, real: %s" % (case, v, why))
                 continue
             if gname == "backend":
                 for v in r["violations"]:
@@ -573,6 +671,11 @@ def run(rep, tier, only=None):
 def replay(case):
     c = case["case"]
     rep = Replayer()
+    if c.get("kind") == "merge":
+        ok, why, _ = native_merge(rep, tuple(c["kinds"]))
+        rep.close()
+        print(why)
+        return 1 if ok else 0
     if c.get("kind") == "backend":
         ok, why, _ = native_backend(rep, c["lang"], tuple(c["kinds"]), c["v"])
         rep.close()
